@@ -75,6 +75,10 @@ class SymEnv:
                 return a / b
         if isinstance(e, ast.UnaryOp) and isinstance(e.op, ast.USub):
             return -self.ev(e.operand)
+        if isinstance(e, ast.JoinedStr) or (isinstance(e, ast.Constant) and isinstance(e.value, str)):
+            return Rat.sym("<str>")
+        if isinstance(e, ast.Constant) and e.value is None:
+            return Rat.sym("<None>")
         if isinstance(e, ast.Constant):
             return eval_expr(e, {})
         if isinstance(e, ast.Call):
